@@ -149,12 +149,13 @@ def parts(tier):
     return [Part(api.replace('.', '_'), cases(api), quick=800, thorough=2500)
             for api in APIS] + \
            [Part('blocking_user_callback', c15_block.cases(), quick=150, thorough=600),
-            Part('submit_then_wait', c15_block.submit_cases(), quick=120, thorough=500)]
+            Part('submit_then_wait', c15_block.submit_cases(), quick=120, thorough=500),
+            Part('kill_in_flight', c15_block.kill_cases(), quick=150, thorough=600)]
 
 
 def normalise(case):
     """repair a candidate of the minimiser (or reject it)"""
-    if isinstance(case, dict) and case.get('kind') in ('blocking_callback', 'submit_then_wait'):
+    if isinstance(case, dict) and case.get('kind') in ('blocking_callback', 'submit_then_wait', 'kill_in_flight'):
         return case
     try:
         if case['api'] not in APIS or not case['ents']:
@@ -229,6 +230,8 @@ def run_case(case):
         return c15_block.run(case)
     if case.get('kind') == 'submit_then_wait':
         return c15_block.run_submit(case)
+    if case.get('kind') == 'kill_in_flight':
+        return c15_block.run_kill(case)
     res   = CaseResult()
     api   = case['api']
     kind  = KIND[api]
